@@ -24,7 +24,7 @@ Line-protocol driver for C18 (decimal amount strings <-> 18-decimal integers).
   u64 <u64>                Uint64ToBigInt(n)              -> ok <int>
   stakearg <int>           ParseUint(BigIntToStrWithoutDot(n),10,0) -> ok <n> | err
   basen <nat> <base>       BigIntBase10toN(n, base)       -> s <string>   (2 <= base <= 16)
-  calldata <nat>           common.GenerateCallDataBigInt(n) -> s <string>
+  calldata <nat>           common.GenerateCallDataBigInt(n) -> s <string> arg-after=<n afterwards> (the Go loop zeroes its argument)
   size <hex-string> <d>    bit length of |strToBigInt(s, d)| -> bits <n> | err
 
 Strings travel as hex of their bytes (a byte b is the character with code b; the
@@ -203,7 +203,7 @@ def step (_ : Unit) (line : String) : Unit × String :=
     | _, _ => ((), "bad-op")
   | ["calldata", n] =>
     match n.toNat? with
-    | some n => ((), showStr (callDataBigInt n))
+    | some n => ((), showStr (callDataBigInt n) ++ " arg-after=0")
     | none => ((), "bad-op")
   | ["size", h, d] =>
     match ofHex? h, d.toInt? with
